@@ -343,32 +343,34 @@ def fixSep (g : List Gap) : List Gap :=
   | .ws w :: r => .ws w :: r
   | g => .ws .sp :: g
 
-theorem sepBytes_fix (g : List Gap) : sepBytes g = gapsBytes (fixSep g) ∧ SepGaps (fixSep g) := by
+theorem sepBytes_fix (g : List Gap) (h : g = [] ∨ startsWs g = true) :
+    sepBytes g = gapsBytes (fixSep g) ∧ SepGaps (fixSep g) := by
   cases g with
   | nil => exact ⟨by simp [sepBytes, fixSep, gapsBytes, Gap.bytes, Ws.byte], ⟨.sp, [], rfl⟩⟩
   | cons x r =>
     cases x with
     | ws w => exact ⟨by simp [sepBytes, fixSep], ⟨w, r, rfl⟩⟩
-    | comment b => exact ⟨by simp [sepBytes, fixSep, gapsBytes, Gap.bytes, Ws.byte], ⟨.sp, _, rfl⟩⟩
+    | comment b => rcases h with h | h <;> simp [startsWs] at h
 
-theorem tail_trail (g : List Gap) (last : Option Bytes) : Tail (trailBytes g last) := by
-  cases last with
-  | none =>
-    cases g with
-    | nil => simpa [trailBytes] using Tail.none
-    | cons x r =>
-      obtain ⟨e, hs⟩ := sepBytes_fix (x :: r)
-      have : trailBytes (x :: r) none = sepBytes (x :: r) := by simp [trailBytes]
-      rw [this, e]; exact Tail.gaps _ hs
-  | some b =>
-    obtain ⟨e, hs⟩ := sepBytes_fix g
-    have : trailBytes g (some b) = sepBytes g ++ 37 :: commentBody b := by
-      cases g <;> simp [trailBytes]
-    rw [this, e]; exact Tail.last _ b hs
+theorem tail_trail (g : List Gap) (last : Option Bytes) (h : (g = [] ∧ last = none) ∨ startsWs g = true) :
+    Tail (trailBytes g last) := by
+  cases g with
+  | nil =>
+    rcases h with ⟨_, rfl⟩ | h
+    · simpa [trailBytes, gapsBytes] using Tail.none
+    · simp [startsWs] at h
+  | cons x r =>
+    cases x with
+    | comment b => rcases h with ⟨h, _⟩ | h <;> simp [startsWs] at h
+    | ws w =>
+      cases last with
+      | none => simpa [trailBytes] using Tail.gaps _ ⟨w, r, rfl⟩
+      | some b => simpa [trailBytes] using Tail.last _ b ⟨w, r, rfl⟩
 
 /-- the values of a non-empty sentence of proved scalars, followed by a tail, are a text of
     good arguments -/
-theorem argsLay_values (L : Layout) (tail : Bytes) (htail : Tail tail) :
+theorem argsLay_values (L : Layout) (hsp : ∀ i, L.sep i = [] ∨ startsWs (L.sep i) = true)
+    (tail : Bytes) (htail : Tail tail) :
     ∀ (s : Sentence) (i : Nat), s ≠ [] → plainFrom L i s →
       ArgsLay (valArgs L i s) (valuesText L i s ++ tail) := by
   intro s
@@ -382,7 +384,7 @@ theorem argsLay_values (L : Layout) (tail : Bytes) (htail : Tail tail) :
     | nil =>
       simpa [valArgs, valuesText, SVal.text] using ArgsLay.one _ _ tail harg htail
     | cons y r' =>
-      obtain ⟨e, hs⟩ := sepBytes_fix (L.sep i)
+      obtain ⟨e, hs⟩ := sepBytes_fix (L.sep i) (hsp i)
       have := ih (i + 1) (by simp) hr
       have h2 := ArgsLay.cons _ _ (fixSep (L.sep i)) _ _ harg hs this
       simpa [valArgs, valuesText, SVal.text, e, List.append_assoc] using h2
@@ -735,7 +737,8 @@ theorem allCells_pArgs (L : Layout) : ∀ (i : Nat) (s : Sentence), allCells (pA
     simp only [allCells, pCells] at this
     simp [pArgs, pCells, pcellsList, allCells, this]
 
-theorem argsLay_proved (L : Layout) (tail : Bytes) (htail : Tail tail) :
+theorem argsLay_proved (L : Layout) (hsp : ∀ i, L.sep i = [] ∨ startsWs (L.sep i) = true)
+    (tail : Bytes) (htail : Tail tail) :
     ∀ (s : Sentence) (i : Nat), s ≠ [] → provedFrom L i s →
       ArgsLay (pArgs L i s) (valuesText L i s ++ tail) := by
   intro s
@@ -749,7 +752,7 @@ theorem argsLay_proved (L : Layout) (tail : Bytes) (htail : Tail tail) :
     | nil =>
       simpa [pArgs, valuesText] using ArgsLay.one _ _ tail harg htail
     | cons y r' =>
-      obtain ⟨e, hs⟩ := sepBytes_fix (L.sep i)
+      obtain ⟨e, hs⟩ := sepBytes_fix (L.sep i) (hsp i)
       have := ih (i + 1) (by simp) hr
       have h2 := ArgsLay.cons _ _ (fixSep (L.sep i)) _ _ harg hs this
       simpa [pArgs, valuesText, e, List.append_assoc] using h2
